@@ -97,29 +97,41 @@ def handle (op : String) (args : List String) (impl : String) : Option Verdict :
   | "execwatch", [kind, cap, tg, gases] => some <| Id.run do
     let some cap := cap.toNat? | return bad
     let some tg := tg.toNat? | return bad
+    let gases := if gases.startsWith "r:" then (gases.drop 2).toString else gases
+    -- per proposal: gas metadata, already executed (suffix e), ProposalsHash fails for its batch (suffix x)
     let some gs := (items gases ",").mapM (fun g =>
+      let fx := g.endsWith "x"
+      let g := if fx then (g.dropEnd 1).toString else g
       let ex := g.endsWith "e"
       let g := if ex then (g.dropEnd 1).toString else g
-      if g = "n" then some (none, ex) else g.toNat?.map (fun v => (some v, ex))) | return bad
-    let ps : List Sygma.C14.PIn := gs.map fun g => ⟨g.1, g.2⟩
+      if g = "n" then some (none, ex, fx) else g.toNat?.map (fun v => (some v, ex, fx))) | return bad
+    let ps : List Sygma.C14.PIn := gs.map fun g => ⟨g.1, g.2.1⟩
+    let failIdx := (gs.zipIdx.filter fun g => g.1.2.2).map (·.2)
     let pendingIdx := (ps.zipIdx.filter fun p => !p.1.executed).map (·.2)
-    let hashed : List (List Nat) :=
+    let batches : List (List Nat) :=
       if kind = "evm" then ((Sygma.C14.batches cap tg ps).map fun b => b.members.map (·.1)).filter (· ≠ [])
       else if pendingIdx.isEmpty then [] else [pendingIdx]
-    let hs := (hashed.map fun b => joinOr (b.map toString) ",").mergeSort (fun a b => a ≤ b)
-    let polls := joinOr (pendingIdx.map fun i => s!"{i}:1") ","
-    let m := s!"H={joinOr hs ";"}|polls={polls}|ret=nil"
-    -- property on the implementation's output: every hashed batch is watched (and later submitted) as itself — the
-    -- members polled by the watchers are exactly the hashed members, each by exactly one watcher
+    let fails := fun (b : List Nat) => b.any (failIdx.contains ·)
+    -- a batch whose hash cannot be computed is neither signed nor watched; the others are hashed in delivery order
+    let hs := (batches.map fun b => (if fails b then "!" else "") ++ joinOr (b.map toString) ",").mergeSort (fun a b => a ≤ b)
+    let watched := (batches.filter (!fails ·)).flatten
+    let polls := joinOr (watched.map fun i => s!"{i}:1") ","
+    let m := s!"H={joinOr hs ";"}|polls={polls}|ret={if batches.any fails then "err" else "nil"}"
+    -- property on the implementation's output: what is hashed is a batch of the delivery IN ITS ORDER (identical on
+    -- every relayer); every successfully hashed batch is watched as itself, nothing is watched (or signed) for a batch
+    -- whose hash failed
     let ok := match impl.splitOn "|" with
       | [h, p, r] =>
-        let hashedMembers := (((h.drop 2).toString.splitOn ";").flatMap fun b => items b ",").mergeSort (fun a b => a ≤ b)
+        let hb := items (h.drop 2).toString ";"
+        let okB := (hb.filter (!·.startsWith "!"))
+        let inOrder := okB.all fun b => (batches.map fun x => joinOr (x.map toString) ",").contains b
+        let hashedMembers := (okB.flatMap fun b => items b ",").mergeSort (fun a b => a ≤ b)
         let polled := ((items (p.drop 6).toString ",").map fun e => e.splitOn ":")
         let polledOnce := polled.all fun e => e.getD 1 "" == "1"
         let polledMembers := (polled.map fun e => e.headD "").mergeSort (fun a b => a ≤ b)
-        h.startsWith "H=" && p.startsWith "polls=" && polledOnce && polledMembers == hashedMembers && r == "ret=nil"
+        h.startsWith "H=" && p.startsWith "polls=" && inOrder && polledOnce && polledMembers == hashedMembers && r != "ret=stuck"
       | _ => false
-    return ⟨m, ok, s!"execwatch:{kind}:n={min ps.length 4}:batches={min hashed.length 4}"⟩
+    return ⟨m, ok, s!"execwatch:{kind}:n={min ps.length 4}:batches={min batches.length 4}:hashfail={batches.any fails}"⟩
   | "execsign", [kind, cap, tg, gases] => some <| Id.run do
     let some cap := cap.toNat? | return bad
     let some tg := tg.toNat? | return bad
